@@ -110,10 +110,10 @@ class Script:
                 inv.append((args, ret))
             return {"cb": self.cb_counter, "inv": inv, "destructor": r.random() < 0.8 or self.lang == "cpp"}
         if k == "write":
-            nch = r.choice([0, 1, 2, 3])
+            nch = r.choice([0, 1, 2, 3, 5, 8])
             chunks = [r.choice(CHUNKS) for _ in range(nch)]
             mode = r.choice(["buffer", "buffer", "fixed"]) if self.lang == "c" else "buffer"
-            return {"chunks": chunks, "mode": mode, "cap": r.choice([0, 1, 4, 16]), "size": r.choice([1, 2, 4, 8, 16, 64])}
+            return {"chunks": chunks, "mode": mode, "cap": r.choice([0, 1, 2, 4, 16, 64]), "size": r.choice([1, 2, 3, 4, 5, 8, 16, 17, 18, 32, 64])}
         raise ValueError(t)
 
     def ret_value(self, t, m, args):
